@@ -186,18 +186,25 @@ def oracle(case, res):
             rho = (len(neg) * (max(gn) if gn else 0) * XTOL / min(gp)) if gp else 0
             kind = "xtol-exceeds-positive-gap" if rho >= Fraction(1, 4) else "separated"
             fails.append((f"C06/fnr-side/{kind}/{cfg}", f"FNR(t)={fnr} differs from eer {e} by more than one sample 1/{npa} (rho={float(rho):.3g})"))
+        # conditioning of the crossing: the bisected function t_fpr(x) - t_fnr(x) has slope >= N * (smallest gap within a class),
+        # so a rounding error of one ulp in a threshold moves the crossing by ulp / (N * gap); only for scores ~1e-10 apart does
+        # this exceed the base tolerance
+        gaps_ = [g_ for g_ in _gaps(pos) + _gaps(neg) if g_ > 0]
+        a_abs = abs(F(case["a"])) if "a" in case else Fraction(1)
+        scale_ = max([abs(v) for v in allv] + [Fraction(1)]) * max(a_abs, 1) + (abs(F(case["b"])) if "b" in case else 0)
+        eps_e = eps + (16 * scale_ * Fraction(1, 2 ** 52) / (min(gaps_) * min(len(pos), len(neg))) if gaps_ else 0)
         if "aff" in r:
             a, b = F(case["a"]), F(case["b"])
             t2, e2 = F(r["aff"][0]), F(r["aff"][1])
             spread = max(allv) - min(allv) + 1
-            if abs(e2 - e) > eps:
+            if abs(e2 - e) > eps_e:
                 fails.append((f"C06/affine-eer/{cfg}", f"eer {e} became {e2} under x -> {a}x+{b}"))
             if abs(t2 - (a * t + b)) > a * (eps * len(allv) * spread + Fraction(1, 2 ** 40)):
                 fails.append((f"C06/affine-threshold/{cfg}", f"threshold {t} mapped to {t2}, expected {a * t + b}"))
         if "rev" in r:
             t3, e3 = F(r["rev"][0]), F(r["rev"][1])
             spread = max(allv) - min(allv) + 1
-            if abs(e3 - e) > eps:
+            if abs(e3 - e) > eps_e:
                 fails.append((f"C06/reverse-eer/{cfg}", f"eer {e} became {e3} when the scores are negated and score_class flipped"))
             if abs(t3 + t) > eps * len(allv) * spread + Fraction(1, 2 ** 40):
                 fails.append((f"C06/reverse-threshold/{cfg}", f"threshold {t}: the reversed object returns {t3}, expected {-t}"))
